@@ -11,6 +11,7 @@ multi-slice answer is re-queried slice by slice, a named-evidence failure is re-
 anything the classifiers cannot attribute keeps a generic key (c17:wrong-marginal, c17:exception:...).
 """
 import itertools
+import json
 import os
 
 import numpy as np
@@ -141,6 +142,7 @@ def gen_template(rng, tier, kind=None):
     par0 = {v: [[u, 0] for u, w in intra if w == v] for v in vs}
     par1 = {v: [[u, 1] for u, w in intra if w == v] + [[u, 0] for u, w in inter if w == v] for v in vs}
     zeros = rng.random() < 0.3
+    tiny = rng.random() < 0.25          # columns mixing entries down to 1e-12 (and exact zeros) with O(1) entries
     cpd0, cpd1 = {}, {}
     for v in vs:
         p0 = [list(p) for p in par0[v]]
@@ -148,7 +150,7 @@ def gen_template(rng, tier, kind=None):
         q = 1
         for p, _ in p0:
             q *= card[p]
-        cpd0[v] = {"parents": p0, "table": gen.rand_cpt(rng, card[v], q, zeros)}
+        cpd0[v] = {"parents": p0, "table": rand_table(rng, card[v], q, zeros, tiny)}
         p1 = [list(p) for p in par1[v]]
         rng.shuffle(p1)
         if not any(s == 0 for _, s in p1) and rng.random() < 0.7:
@@ -158,8 +160,27 @@ def gen_template(rng, tier, kind=None):
             q = 1
             for p, _ in p1:
                 q *= card[p]
-            cpd1[v] = {"parents": p1, "table": gen.rand_cpt(rng, card[v], q, zeros)}
-    return {"kind": kind, "vars": vs, "card": card, "intra": intra, "inter": inter, "cpd0": cpd0, "cpd1": cpd1}
+            cpd1[v] = {"parents": p1, "table": rand_table(rng, card[v], q, zeros, tiny)}
+    return {"kind": kind, "vars": vs, "card": card, "intra": intra, "inter": inter, "cpd0": cpd0, "cpd1": cpd1,
+            "zeros": zeros, "tiny": tiny}
+
+
+TINY = [1e-12, 1e-12, 1e-10, 1e-8, 1e-8, 1e-6, 1e-4, 0.0]
+
+
+def rand_table(rng, r, q, zeros, tiny):
+    """r x q CPT; with `tiny`, about half of the columns put 1e-12 .. 1e-4 (or exactly 0) on all states but one."""
+    tab = gen.rand_cpt(rng, r, q, zeros)
+    if tiny:
+        for j in range(q):
+            if rng.random() < 0.5:
+                big = rng.randrange(r)
+                col = [rng.choice(TINY) for _ in range(r)]
+                col[big] = 0.0
+                col[big] = 1.0 - sum(col)
+                for i in range(r):
+                    tab[i][j] = col[i]
+    return tab
 
 
 def iface_parents(tpl):
@@ -375,25 +396,38 @@ def node_labels(tpl, v):
     return list(st[v]) if st else list(range(tpl["card"][v]))
 
 
+def rname(tpl, v):
+    """The variable name handed to pgmpy for template variable id `v` (ids 'A'.. are used by spec and oracle)."""
+    nm = tpl.get("names")
+    return nm[v] if nm else v
+
+
+def make_cpd(tpl, v, sl):
+    from pgmpy.factors.discrete import TabularCPD
+    c = tpl["cpd0" if sl == 0 else "cpd1"][v]
+    pa = [(u, 0) for u, _ in c["parents"]] if sl == 0 else [(u, s) for u, s in c["parents"]]
+    kw = {}
+    if tpl.get("states"):
+        kw["state_names"] = {(rname(tpl, x[0]), x[1]): node_labels(tpl, x[0]) for x in [(v, sl)] + pa}
+    return TabularCPD((rname(tpl, v), sl), tpl["card"][v], [list(r) for r in c["table"]],
+                      evidence=[(rname(tpl, u), s) for u, s in pa] or None,
+                      evidence_card=[tpl["card"][u] for u, _ in pa] or None, **kw)
+
+
 def build_dbn(tpl, which=None):
     """Real DynamicBayesianNetwork from a template.  `which`: collection of (v, slice) CPDs to add (default all)."""
-    from pgmpy.factors.discrete import TabularCPD
     from pgmpy.models import DynamicBayesianNetwork as DBN
+    R = lambda v: rname(tpl, v)
     d = DBN()
-    d.add_nodes_from(list(tpl["vars"]))
-    d.add_edges_from([((u, 0), (v, 0)) for u, v in tpl["intra"]] + [((u, 0), (v, 1)) for u, v in tpl["inter"]])
+    d.add_nodes_from([R(v) for v in tpl["vars"]])
+    d.add_edges_from([((R(u), 0), (R(v), 0)) for u, v in tpl["intra"]]
+                     + [((R(u), 0), (R(v), 1)) for u, v in tpl["inter"]])
     cpds = []
     order = tpl.get("cpd_order") or [[v, s] for s in (0, 1) for v in tpl["vars"]]
     for v, sl in order:
         if which is not None and (v, sl) not in which:
             continue
-        c = tpl["cpd0" if sl == 0 else "cpd1"][v]
-        pa = [(u, 0) for u, _ in c["parents"]] if sl == 0 else [(u, s) for u, s in c["parents"]]
-        kw = {}
-        if tpl.get("states"):
-            kw["state_names"] = {x: node_labels(tpl, x[0]) for x in [(v, sl)] + pa}
-        cpds.append(TabularCPD((v, sl), tpl["card"][v], [list(r) for r in c["table"]],
-                               evidence=pa or None, evidence_card=[tpl["card"][u] for u, _ in pa] or None, **kw))
+        cpds.append(make_cpd(tpl, v, sl))
     d.add_cpds(*cpds)
     return d
 
@@ -408,7 +442,18 @@ def _norm(var):
         return var
 
 
-def read_view(f):
+def _nid(tpl, var):
+    """(real name, t) as DynamicNode / tuple -> (template id, t)."""
+    x = _norm(var)
+    nm = tpl.get("names")
+    if nm and isinstance(x, tuple) and len(x) == 2:
+        for i, real in nm.items():
+            if type(real) is type(x[0]) and real == x[0]:
+                return (i, x[1])
+    return x
+
+
+def read_view(f, vmap=_norm):
     """{frozenset((var, label))): value} of a factor / CPD through variables, state_names, values only."""
     from rv.build import to_np
     vals = np.asarray(to_np(f.values))
@@ -418,7 +463,7 @@ def read_view(f):
         raise ValueError(f"values shape {vals.shape} does not match state names {[len(n) for n in names]}")
     out = {}
     for idx in itertools.product(*[range(len(n)) for n in names]):
-        out[frozenset((_norm(v), names[i][k]) for i, (v, k) in enumerate(zip(variables, idx)))] = float(vals[idx])
+        out[frozenset((vmap(v), names[i][k]) for i, (v, k) in enumerate(zip(variables, idx)))] = float(vals[idx])
     return out
 
 
@@ -432,19 +477,62 @@ def expected_cpd_view(child, parents, card_of, table, labels_of):
     return out
 
 
-def view_diff(got, want, atol=1e-9):
+def view_diff(got, want, atol=1e-15):
+    """CPDs are copied, not computed: equal up to the last bits, relative to each entry (entries go down to 1e-12)."""
     return oracle.named_close(got, want, atol=atol, rtol=1e-9)
 
 
 # =========================================================================== case generation
-def gen_queries(rng, tpl, U, tier):
+PE_MIN = 1e-200      # evidence of any positive probability the oracle can still normalise
+
+
+def _pe(U, qv, ev):
+    hor = max([x[1] for x in qv] + [k[1] for k in ev])
+    alpha, _ = U.run(ev, hor)
+    return alpha[hor].sum()
+
+
+def twin_slice0(rng, tpl, U, q):
+    """The same call with the same evidence VARIABLES but other states on (some of) the slice-0 ones (adding one
+    slice-0 observation first if the call has none): on a shared engine this is the shape that exposes an answer
+    memoised per evidence variables / not reset between calls."""
+    qv = q["vars"]
+    ev = {(v, t): s for v, t, s in q["evidence"]}
+    base = None
+    if not any(t == 0 for _, t in ev):
+        cand = [v for v in tpl["vars"] if [v, 0] not in qv]
+        rng.shuffle(cand)
+        for v in cand:
+            for s in range(tpl["card"][v]):
+                trial = dict(ev)
+                trial[(v, 0)] = s
+                if _pe(U, qv, trial) > PE_MIN:
+                    base = trial
+                    break
+            if base:
+                break
+        if base is None:
+            return []
+        ev = base
+    s0 = [k for k in ev if k[1] == 0]
+    for _ in range(8):
+        trial = dict(ev)
+        for k in rng.sample(s0, rng.randint(1, len(s0))):
+            trial[k] = rng.choice([s for s in range(tpl["card"][k[0]]) if s != ev[k]])
+        if _pe(U, qv, trial) > PE_MIN:
+            mk = lambda e, tag: dict(q, evidence=sorted([v, t, s] for (v, t), s in e.items()), brute=False, tag=tag)
+            return ([mk(ev, "twin-a")] if base is not None else []) + [mk(trial, "twin-b")]
+    return []
+
+
+def gen_queries(rng, tpl, U, tier, nq=None, sequences=True):
     big = tier == "thorough"
     vs = tpl["vars"]
     ip = iface_parents(tpl)
     out = []
-    nq = 7 if not big else 10
+    nq = nq or (7 if not big else 10)
     for qi in range(nq):
-        T = rng.choice([0, 1, 1, 2, 2, 3, 3, 4] if not big else [0, 1, 2, 2, 3, 3, 4, 4, 5, 6])
+        T = rng.choice([0, 1, 1, 2, 2, 3, 3, 4, 6] if not big else [0, 1, 2, 2, 3, 3, 4, 4, 5, 6, 9])
         if len(U.states) > 40 and T > 3:
             T = 3
         shape = "multi" if (T >= 1 and rng.random() < 0.3) else "single"
@@ -486,11 +574,26 @@ def gen_queries(rng, tpl, U, tier):
                 trial[(v, t)] = s
                 hor = max([x[1] for x in qv] + [k[1] for k in trial])
                 alpha, _ = U.run(trial, hor)
-                if alpha[hor].sum() > 1e-9:
+                if alpha[hor].sum() > PE_MIN:
                     ev = trial
                     break
         out.append({"vars": qv, "evidence": sorted([v, t, s] for (v, t), s in ev.items()),
-                    "api": rng.choice(["query", "backward_inference"]), "brute": False})
+                    "api": rng.choice(["query", "backward_inference"]), "brute": False, "tag": "base",
+                    "empty": rng.choice(["none", "dict"]), "first": rng.choice(["forward", "backward"])})
+    if sequences:
+        # call sequences on the shared engine: twins differing only in slice-0 evidence states, right after the
+        # original; the first call once more at the very end (the engine has served every other call in between)
+        seq = []
+        ntw = 0
+        for q in out:
+            seq.append(q)
+            if ntw < 2 and rng.random() < 0.6:
+                tw = twin_slice0(rng, tpl, U, q)
+                if tw:
+                    ntw += 1
+                    seq += tw
+        seq.append(dict(out[0], brute=False, tag="repeat"))
+        out = seq
     return out
 
 
@@ -499,13 +602,24 @@ def gen_case(seed, idx, tier):
     tpl = gen_template(rng, tier)
     if rng.random() < 0.2:
         tpl["states"] = {}
+        odd = rng.random() < 0.35        # falsy / numeric-looking / blank-containing labels
         for v in tpl["vars"]:
             labels = [f"{v.lower()}{i}" for i in range(tpl["card"][v])]
+            if odd:
+                labels = rng.sample(["", "0", "x y", "None", "-1", "False"], tpl["card"][v])
             if rng.random() < 0.5:
                 rng.shuffle(labels)
             tpl["states"][v] = labels
     else:
         tpl["states"] = None
+    # variable names given to pgmpy: letters, integers (falsy 0, multi-digit) or strings with '_' / empty string
+    nk = rng.choice(["letters"] * 7 + ["int", "int", "underscore"])
+    if nk == "int":
+        tpl["names"] = dict(zip(tpl["vars"], rng.sample([0, 1, 2, 10, 31, 100], len(tpl["vars"]))))
+    elif nk == "underscore":
+        tpl["names"] = dict(zip(tpl["vars"], rng.sample(["X_1", "X", "X_10", "", "_", "Y_0"], len(tpl["vars"]))))
+    else:
+        tpl["names"] = None
     order = [[v, s] for s in (0, 1) for v in tpl["vars"]]
     rng.shuffle(order)
     tpl["cpd_order"] = order
@@ -526,7 +640,27 @@ def gen_case(seed, idx, tier):
             partial += [[v, 0], [v, 1]]
         else:
             partial += rng.choice([[[v, 0]], [[v, 0]], [[v, 1]], [[v, 0], [v, 1]]])
-    return {"tpl": tpl, "queries": queries, "partial": partial, "tslice": rng.choice([1, 2, 5])}
+    # one model object edited in place: a CPD is replaced (for a variable without inter-slice parents possibly both
+    # copies are removed, the slice-0 one re-added and the other left to initialize_initial_state)
+    v = rng.choice(tpl["vars"])
+    tpl2 = json.loads(json.dumps(tpl))
+    c1 = tpl2["cpd1"][v]
+    q = 1
+    for p, _ in c1["parents"]:
+        q *= tpl["card"][p]
+    both = v not in inter_children and rng.random() < 0.6
+    if both:
+        c0 = tpl2["cpd0"][v]
+        q = 1
+        for p, _ in c0["parents"]:
+            q *= tpl["card"][p]
+        c0["table"] = rand_table(rng, tpl["card"][v], q, tpl["zeros"], tpl["tiny"])
+        tpl2["cpd1"][v] = {"parents": [[p, 1] for p, _ in c0["parents"]], "table": [list(r) for r in c0["table"]]}
+    else:
+        c1["table"] = rand_table(rng, tpl["card"][v], q, tpl["zeros"], tpl["tiny"])
+    U2 = Unrolled(tpl2)
+    edit = {"var": v, "both": both, "tpl2": tpl2, "queries": gen_queries(rng, tpl2, U2, tier, nq=2, sequences=False)}
+    return {"tpl": tpl, "queries": queries, "partial": partial, "tslice": rng.choice([1, 2, 5]), "edit": edit}
 
 
 def case_digest(spec):
@@ -543,11 +677,16 @@ def _labels_state(tpl, got_labels, v):
     return "bad"
 
 
+# marginals are normalised, but single entries go down to ~1e-12 (tiny CPD entries) while the evidence probability
+# goes down to 1e-200: every entry is compared relative to its own size
+ATOL, RTOL = 1e-13, 1e-7
+
+
 def judge_marginal(tpl, factor, var, want):
     """-> (status, text): ok | dropped (values right, labels replaced by 0..k-1) | wrong | malformed"""
     v, t = var
     try:
-        if [_norm(x) for x in factor.variables] != [(v, t)]:
+        if [_nid(tpl, x) for x in factor.variables] != [(v, t)]:
             return "malformed", f"scope {factor.variables!r} instead of [{var!r}]"
         key = list(factor.variables)[0]
         labels = list(factor.state_names[key])
@@ -560,7 +699,7 @@ def judge_marginal(tpl, factor, var, want):
     ls = _labels_state(tpl, labels, v)
     if ls == "bad":
         return "wrong", f"state names {labels!r}, template has {node_labels(tpl, v)!r}"
-    if not np.all(np.isfinite(vals)) or not np.allclose(vals, want, atol=1e-9, rtol=1e-9):
+    if not np.all(np.isfinite(vals)) or not np.all(np.abs(vals - want) <= ATOL + RTOL * np.abs(want)):
         return "wrong", f"got {vals.tolist()!r}, unrolled network gives {np.asarray(want).tolist()!r}"
     return ("dropped" if ls == "dropped" else "ok"), ""
 
@@ -578,10 +717,16 @@ class EngineBox:
         return DBNInference(d)
 
 
-def engine_call(ctx, inf, tpl, mode, api, qv, ev):
+def engine_call(ctx, inf, tpl, mode, api, qv, ev, empty="none"):
     fn = inf.forward_inference if mode == "forward" else getattr(inf, api)
-    evd = {(v, t): node_labels(tpl, v)[s] for (v, t), s in ev.items()}
-    return ctx.call(fn, [tuple(x) for x in qv], dict(evd) if evd else None)
+    evd = {(rname(tpl, v), t): node_labels(tpl, v)[s] for (v, t), s in ev.items()}
+    given = dict(evd) if (evd or empty == "dict") else None          # no evidence: None or an empty dict
+    variables = [(rname(tpl, v), t) for v, t in qv]
+    r = ctx.call(fn, list(variables), given)
+    if given is not None and given != evd:
+        ctx.violation("c17:evidence-dict-modified", f"{mode} call changed the caller's evidence dict from {evd} "
+                      f"to {given}")
+    return r
 
 
 def exception_key(ctx, box, tpl, mode, api, qv, ev, r):
@@ -601,7 +746,7 @@ def exception_key(ctx, box, tpl, mode, api, qv, ev, r):
 def _read_one(ctx, tpl, r, var, want):
     """status of `var` in an engine result (exception-safe)."""
     try:
-        return judge_marginal(tpl, {_norm(k): f for k, f in r.items()}[var], var, want)[0]
+        return judge_marginal(tpl, {_nid(tpl, k): f for k, f in r.items()}[var], var, want)[0]
     except Exception:
         return "malformed"
 
@@ -617,14 +762,18 @@ def check_call(ctx, box, inf, tpl, U, mode, q):
     detail = dict(mode=mode, query=qv, evidence=ev, horizon=horizon, inter=tpl["inter"], intra=tpl["intra"])
     if tpl.get("states"):
         detail["states"] = tpl["states"]
-    r = engine_call(ctx, inf, tpl, mode, q["api"], qv, ev)
+    if q.get("tag", "base") != "base":
+        detail["sequence"] = q["tag"]
+    if tpl.get("names"):
+        detail["names"] = tpl["names"]
+    r = engine_call(ctx, inf, tpl, mode, q["api"], qv, ev, empty=q.get("empty", "none"))
     if ctx.failed(r):
         key, extra = exception_key(ctx, box, tpl, mode, q["api"], qv, ev, r)
         ctx.violation(key, f"{label} raised {r!r}{extra}", **detail)
         return 0
     try:
-        keys = sorted(_norm(k) for k in r)
-        got = {_norm(k): f for k, f in r.items()}
+        keys = sorted(_nid(tpl, k) for k in r)
+        got = {_nid(tpl, k): f for k, f in r.items()}
     except Exception as e:
         ctx.violation("c17:malformed-result", f"{label}: cannot read result: {type(e).__name__}: {e}", **detail)
         return 0
@@ -674,6 +823,12 @@ def check_call(ctx, box, inf, tpl, U, mode, q):
         ok3 = (not ctx.failed(r3)) and _read_one(ctx, tpl, r3, var, want[var]) in ("ok", "dropped")
         ctx.violation("c17:engine-history" if ok3 else "c17:wrong-marginal",
                       what + ("; a fresh engine answers correctly" if ok3 else ""), **detail)
+    # the caller owns the returned factors: overwrite them, later answers of the same engine must not change
+    try:
+        for f in r.values():
+            f.values[...] = -7.0
+    except Exception:
+        pass
     if dropped0:
         ctx.violation("c17:state-names-dropped:slice0-result",
                       f"{label}: values are right but a slice-0 result carries labels 0..k-1 instead of the "
@@ -685,8 +840,8 @@ def check_call(ctx, box, inf, tpl, U, mode, q):
     return judged
 
 
-def check_constant_bn(ctx, tpl, d, ts):
-    label = f"get_constant_bn(t_slice={ts})"
+def check_constant_bn(ctx, tpl, d, ts, tag=""):
+    label = f"get_constant_bn(t_slice={ts}){tag}"
     bn = ctx.call(d.get_constant_bn, t_slice=ts) if ts else ctx.call(d.get_constant_bn)
     if ctx.failed(bn):
         used0 = {x for e in tpl["intra"] for x in e} | {u for u, _ in tpl["inter"]}
@@ -695,8 +850,10 @@ def check_constant_bn(ctx, tpl, d, ts):
             return ctx.violation("c17:constant-bn-isolated-node", f"{label} raised {bn!r}: the slice-0 copy of "
                                  f"{lonely} has no edge", intra=tpl["intra"], inter=tpl["inter"])
         return ctx.violation(f"c17:exception:{bn.type}@{bn.where}", f"{label} raised {bn!r}")
-    want_edges = {(f"{u}_{s + ts}", f"{v}_{s + ts}") for u, v in tpl["intra"] for s in (0, 1)} | \
-                 {(f"{u}_{ts}", f"{v}_{ts + 1}") for u, v in tpl["inter"]}
+    cn = lambda v, t: f"{rname(tpl, v)}_{t}"          # documented naming: '{var}_{time}'
+    back = {cn(v, t): v for v in tpl["vars"] for t in (ts, ts + 1)}
+    want_edges = {(cn(u, s + ts), cn(v, s + ts)) for u, v in tpl["intra"] for s in (0, 1)} | \
+                 {(cn(u, ts), cn(v, ts + 1)) for u, v in tpl["inter"]}
     try:
         got_edges = {(str(a), str(b)) for a, b in bn.edges()}
     except Exception as e:
@@ -707,9 +864,9 @@ def check_constant_bn(ctx, tpl, d, ts):
     for sl, key in ((0, "cpd0"), (1, "cpd1")):
         for v in tpl["vars"]:
             c = tpl[key][v]
-            child = f"{v}_{sl + ts}"
-            pa = [f"{u}_{(0 if sl == 0 else s) + ts}" for u, s in c["parents"]]
-            card_of = lambda nm: tpl["card"][nm.rsplit("_", 1)[0]]
+            child = cn(v, sl + ts)
+            pa = [cn(u, (0 if sl == 0 else s) + ts) for u, s in c["parents"]]
+            card_of = lambda nm: tpl["card"][back[nm]]
             cpd = ctx.call(bn.get_cpds, child)
             if ctx.failed(cpd) or cpd is None:
                 ctx.violation("c17:constant-bn-cpd", f"{label}: no CPD for {child}: {cpd!r}")
@@ -719,8 +876,7 @@ def check_constant_bn(ctx, tpl, d, ts):
             except Exception as e:
                 ctx.violation("c17:malformed-result", f"{label}: cannot read CPD of {child}: {e}")
                 continue
-            want = expected_cpd_view(child, pa, card_of, c["table"],
-                                     lambda nm: node_labels(tpl, nm.rsplit("_", 1)[0]))
+            want = expected_cpd_view(child, pa, card_of, c["table"], lambda nm: node_labels(tpl, back[nm]))
             diff = view_diff(got, want)
             if diff is None:
                 ctx.ok()
@@ -738,6 +894,7 @@ def check_constant_bn(ctx, tpl, d, ts):
                       f"(template state names {tpl['states']})")
     ok = ctx.call(bn.check_model)
     ctx.expect(ok is True, "c17:constant-bn-invalid", f"{label}: check_model of the returned network: {ok!r}")
+    return bn
 
 
 def check_completion(ctx, tpl, partial):
@@ -746,8 +903,9 @@ def check_completion(ctx, tpl, partial):
     if not need:
         ctx.note("completion:nothing-to-add")
     d = build_dbn(tpl, which)
+    vmap = lambda x: _nid(tpl, x)
     try:
-        before = [(_norm(c.variable), read_view(c)) for c in d.cpds]
+        before = [(vmap(c.variable), read_view(c, vmap)) for c in d.cpds]
     except Exception as e:  # our own CPDs must be readable
         raise AssertionError(f"cannot read own CPDs: {e}")
     # structural predicates of the two known defects
@@ -766,7 +924,7 @@ def check_completion(ctx, tpl, partial):
     try:
         after = {}
         for c in d.cpds:
-            after.setdefault(_norm(c.variable), []).append(c)
+            after.setdefault(vmap(c.variable), []).append(c)
     except Exception as e:
         return ctx.violation("c17:malformed-result", f"cannot read CPD list after completion: {e}", **detail)
     for var, view in before:
@@ -774,7 +932,7 @@ def check_completion(ctx, tpl, partial):
         same = len(cs) == 1
         if same:
             try:
-                same = view_diff(read_view(cs[0]), view, atol=0.0) is None
+                same = view_diff(read_view(cs[0], vmap), view, atol=0.0) is None
             except Exception:
                 same = False
         ctx.expect(same, "c17:init-state-altered-existing",
@@ -791,7 +949,7 @@ def check_completion(ctx, tpl, partial):
         card_of = lambda x: tpl["card"][x[0]]
         want = expected_cpd_view((v, s), pa, card_of, src["table"], lambda x: node_labels(tpl, x[0]))
         try:
-            got = read_view(cs[0])
+            got = read_view(cs[0], vmap)
             diff = view_diff(got, want)
         except Exception as e:
             diff = f"cannot read: {type(e).__name__}: {e}"
@@ -849,6 +1007,15 @@ def run_case(spec, ctx):
         ctx.feature("inter-edge-to-other-variable")
     if max(tpl["card"].values()) > 2:
         ctx.feature("card>2")
+    if tpl.get("tiny"):
+        ctx.feature("cpd-entries-1e-12..1e-4")
+    if tpl.get("zeros"):
+        ctx.feature("cpd-zeros")
+    if tpl.get("names"):
+        ctx.feature("names:int(0,multi-digit)" if isinstance(next(iter(tpl["names"].values())), int)
+                    else "names:underscore/empty-string")
+    if tpl.get("states") and any(l in ("", "0", "None", "False") for ls in tpl["states"].values() for l in ls):
+        ctx.feature("labels:falsy/numeric-looking")
 
     # ---- the oracle checks itself: recursion vs brute-force joint of the unrolled network
     for q in spec["queries"]:
@@ -865,21 +1032,38 @@ def run_case(spec, ctx):
 
     # ---- full model: completion must be a no-op, constant network must expose the template
     d = build_dbn(tpl)
-    before = [(_norm(c.variable), read_view(c)) for c in d.cpds]
-    r = ctx.call(d.initialize_initial_state)
-    if ctx.failed(r):
-        ctx.violation(f"c17:exception:{r.type}@{r.where}", f"initialize_initial_state on a complete model raised {r!r}")
-    else:
+    vmap = lambda x: _nid(tpl, x)
+    before = [(vmap(c.variable), read_view(c, vmap)) for c in d.cpds]
+
+    def unchanged(what):
         try:
-            after = [(_norm(c.variable), read_view(c)) for c in d.cpds]
+            after = [(vmap(c.variable), read_view(c, vmap)) for c in d.cpds]
             same = len(after) == len(before) and all(a[0] == b[0] and view_diff(a[1], b[1], atol=0.0) is None
                                                      for a, b in zip(after, before))
         except Exception:
             same = False
-        ctx.expect(same, "c17:init-state-altered-existing",
-                   "initialize_initial_state changed the CPD list of a model that already had every CPD")
-    check_constant_bn(ctx, tpl, d, 0)
+        return ctx.expect(same, "c17:init-state-altered-existing" if "initialize" in what else "c17:model-altered",
+                          f"{what} changed the CPD list of the model")
+
+    for rnd in (1, 2):                       # the same object twice: the second call sees the first one's result
+        r = ctx.call(d.initialize_initial_state)
+        if ctx.failed(r):
+            ctx.violation(f"c17:exception:{r.type}@{r.where}",
+                          f"initialize_initial_state (call {rnd}) on a complete model raised {r!r}")
+        else:
+            unchanged(f"initialize_initial_state (call {rnd}) on a model that already had every CPD")
+    bn = check_constant_bn(ctx, tpl, d, 0)
+    if bn is not None and not ctx.failed(bn):
+        # the returned network belongs to the caller: scribbling over it must not reach the model or a later call
+        try:
+            for c in bn.cpds:
+                c.values[...] = 0.25
+            bn.remove_cpds(*list(bn.cpds))
+        except Exception:
+            pass
+        unchanged("get_constant_bn (returned network then overwritten by the caller)")
     check_constant_bn(ctx, tpl, d, spec["tslice"])
+    check_constant_bn(ctx, tpl, d, 0, tag=" [second call on the same model]")
     check_completion(ctx, tpl, spec["partial"])
 
     # ---- inference
@@ -914,9 +1098,66 @@ def run_case(spec, ctx):
             ctx.feature("smoothing(later-evidence)")
         if hor >= 3:
             ctx.feature("horizon>=3")
-        for mode in ("forward", "backward"):
+        if q.get("tag", "base") != "base":
+            ctx.feature("sequence:" + q["tag"].split("-")[0])
+        if not ev and q.get("empty") == "dict":
+            ctx.feature("evidence={}")
+        modes = ("forward", "backward") if q.get("first", "forward") == "forward" else ("backward", "forward")
+        for mode in modes:
             n = check_call(ctx, box, inf, tpl, U, mode, q)
             judged += n
             if n and ev and hor >= 1:
                 nt = True
     ctx.nontrivial = nt
+    check_edit_sequence(ctx, spec, d)
+
+
+def check_edit_sequence(ctx, spec, d):
+    """ONE model object edited in place after it has already served initialize_initial_state, get_constant_bn and an
+    inference engine: a CPD is replaced; the constant network, the completion and a new engine built from the same
+    object must answer for the EDITED template (nothing memoised from before the edit)."""
+    from pgmpy.inference import DBNInference
+    tpl, ed = spec["tpl"], spec["edit"]
+    tpl2, v = ed["tpl2"], ed["var"]
+    R = lambda x: rname(tpl, x)
+    vmap = lambda x: _nid(tpl2, x)
+    label = f"edit of {v}" + (" (both slices, slice 1 re-added by initialize_initial_state)" if ed["both"] else " (slice 1)")
+    for sl in ((0, 1) if ed["both"] else (1,)):
+        old = ctx.call(d.get_cpds, (R(v), sl))
+        r = ctx.call(d.remove_cpds, old) if not ctx.failed(old) else old
+        if ctx.failed(r):
+            return ctx.violation(f"c17:exception:{r.type}@{r.where}", f"{label}: removing the CPD of {(v, sl)} raised {r!r}")
+    r = ctx.call(d.add_cpds, make_cpd(tpl2, v, 0 if ed["both"] else 1))
+    if not ctx.failed(r) and ed["both"]:
+        r = ctx.call(d.initialize_initial_state)
+    if ctx.failed(r):
+        return ctx.violation(f"c17:exception:{r.type}@{r.where}", f"{label}: add_cpds / initialize_initial_state raised {r!r}")
+    # every CPD of the model is now the edited template's
+    try:
+        have = {}
+        for c in d.cpds:
+            have.setdefault(vmap(c.variable), []).append(read_view(c, vmap))
+    except Exception as e:
+        return ctx.violation("c17:malformed-result", f"{label}: cannot read the CPD list: {e}")
+    card_of = lambda x: tpl2["card"][x[0]]
+    for sl, key in ((0, "cpd0"), (1, "cpd1")):
+        for u in tpl2["vars"]:
+            c = tpl2[key][u]
+            pa = [(p, 0 if sl == 0 else s) for p, s in c["parents"]]
+            want = expected_cpd_view((u, sl), pa, card_of, c["table"], lambda x: node_labels(tpl2, x[0]))
+            views = have.get((u, sl), [])
+            ok = len(views) == 1 and view_diff(views[0], want) is None
+            ctx.expect(ok, "c17:edit-sequence-cpds", f"{label}: the model holds {len(views)} CPDs for {(u, sl)}"
+                       + ("" if len(views) != 1 else f", differing from the edited template: {view_diff(views[0], want)}"))
+    check_constant_bn(ctx, tpl2, d, 0, tag=f" [after {label}]")
+    inf2 = ctx.call(DBNInference, d)
+    if ctx.failed(inf2):
+        if not (isolated_vars(tpl2) or not slices_connected(tpl2)):
+            ctx.violation(f"c17:exception:{inf2.type}@{inf2.where}", f"{label}: DBNInference(model) raised {inf2!r}")
+        return
+    U2 = Unrolled(tpl2)
+    box2 = EngineBox(tpl2, ctx)
+    for q in ed["queries"]:
+        for mode in ("forward", "backward"):
+            check_call(ctx, box2, inf2, tpl2, U2, mode, q)
+    ctx.feature("model-edit-sequence")
